@@ -16,6 +16,7 @@ from urllib.parse import urlparse
 from ..codec import CodecRegistry
 from ..store import Store, current_timestamp
 from ..structures import CodecProtocol, ProtocolRef, FileCodecProtocol, DDSException
+from ..structures import DDSErrorCode
 from ..structures import PyHash, DDSPath, GenericLocation, SupportedType as ST
 from ..structures_utils import SupportedTypeUtils as STU, DDSPathUtils
 
@@ -232,6 +233,7 @@ class DBFSStore(Store):
         for dds_p in paths:
             # Refuses the paths that pathlib would silently normalize to another path ('.' and '..' segments)
             DDSPathUtils.create(dds_p)
+            self._check_not_reserved(dds_p)
         if self._commit_type == CommitType.NO_COMMIT:
             return
         # This is a brute force approach that copies all the data and writes extra meta data.
@@ -298,6 +300,7 @@ class DBFSStore(Store):
         # This is a brute force approach that copies all the data and writes extra meta data.
         for dds_p in paths:
             DDSPathUtils.create(dds_p)
+            self._check_not_reserved(dds_p)
             # TODO: this is the same code as sync_path, factorize
             # Look for the redirection file associated to this file
             # The paths are /_dds_meta/path
@@ -319,6 +322,18 @@ class DBFSStore(Store):
 
     def codec_registry(self) -> CodecRegistry:
         return self._registry
+
+    @staticmethod
+    def _check_not_reserved(dds_p: DDSPath) -> None:
+        # The redirection file of the path /p is <data_dir>/_dds_meta/p, which is also where the object of the
+        # path /_dds_meta/p would be copied: the two would overwrite each other.
+        segments = [seg for seg in str(dds_p).split("/") if seg]
+        if segments and segments[0] == "_dds_meta":
+            raise DDSException(
+                f"The path {dds_p} cannot be used with this store: the top-level name '_dds_meta' is reserved "
+                f"for the records of the store. Suggestion: use another name.",
+                DDSErrorCode.STORE_PATH_NOT_SUPPORTED,
+            )
 
     def _blob_path(self, key: PyHash) -> DBFSURI:
         return self._internal_dir.joinpath("blobs", key)
